@@ -194,6 +194,42 @@ pub fn main(args: &[String]) {
             cx.node(&mut board);
         }
     }
+    // (iv) scripted shuffles on one board: rooks and kings leave home, come back and leave again -- the same
+    // placement recurs with fewer castling rights (and with an expired en-passant target)
+    let shuffles: Vec<(&str, String)> = crate::trace::SCRIPTS
+        .iter()
+        .map(|(_, f, m)| (*f, m.to_string()))
+        .chain([
+            // one side's rook / king leaves home, returns and leaves again while the other side only moves a knight:
+            // the placement of the first query comes back with fewer rights
+            ("r3k1nr/pppppppp/8/8/8/8/PPPPPPPP/R3K1NR w KQkq -", "a1b1 g8f6 b1a1 f6g8 a1b1 g8f6 b1a1 f6g8".to_string()),
+            ("r3k1nr/pppppppp/8/8/8/8/PPPPPPPP/R3K1NR b KQkq -", "a8b8 g1f3 b8a8 f3g1 a8b8 g1f3 b8a8 f3g1".to_string()),
+            ("rn2k2r/pppppppp/8/8/8/8/PPPPPPPP/RN2K2R w KQkq -", "h1g1 b8c6 g1h1 c6b8 h1g1 b8c6 g1h1 c6b8".to_string()),
+            ("rn2k2r/pppppppp/8/8/8/8/PPPPPPPP/RN2K2R b KQkq -", "h8g8 b1c3 g8h8 c3b1 h8g8 b1c3 g8h8 c3b1".to_string()),
+            ("rn2k2r/pppppppp/8/8/8/8/PPPPPPPP/RN2K2R w KQkq -", "e1d1 b8c6 d1e1 c6b8 e1d1 b8c6 d1e1 c6b8".to_string()),
+            ("rn2k2r/pppppppp/8/8/8/8/PPPPPPPP/RN2K2R b KQkq -", "e8d8 b1c3 d8e8 c3b1 e8d8 b1c3 d8e8 c3b1".to_string()),
+        ])
+        .collect();
+    for (fen, mv) in shuffles.iter() {
+        let mut board = crate::trace::parse_fen(fen).setup();
+        cx.node(&mut board);
+        for u in mv.split_whitespace() {
+            let side = board.turn();
+            let cand = match guarded(|| cx.reference.generate_moves(&mut board, side)) {
+                Ok(c) => c,
+                Err(_) => break,
+            };
+            let m = match cand.iter().find(|m| m.to_uci() == u) {
+                Some(m) => m.clone(),
+                None => break,
+            };
+            if guarded(|| m.apply(&mut board).is_ok()) != Ok(true) {
+                break;
+            }
+            board.toggle_turn();
+            cx.node(&mut board);
+        }
+    }
     let summary = json!({"nodes": cx.nodes, "logged": cx.logged, "move_disagreements": cx.move_diffs, "attack_checks": cx.attack_checks,
         "attack_disagreements": cx.attack_diffs, "panics": cx.panics, "long_lived_cache_hits": cx.long.cache_hit_count()});
     drop(cx);
